@@ -70,8 +70,12 @@ theorem parseAST_spec (hl : LexOK ops B μ I) (n : Nat) (l : σ) (hI : I l) :
       simp only [Sat] at hp ⊢
       by_cases he : s1.p2.type ≠ cTypeEOF
       · rw [if_pos he]
-        have hc := errCurr_sat (α := Unit) (Q := fun _ _ => False) (F := False) hp.1
-        generalize (errCurr Variant.fixed : PM σ Unit) s1 = r2 at hc ⊢
+        -- the repaired tree reports the first left-over token (`getInvalidSyntaxPeek`)
+        have hv : ((if Variant.fixed.leftoverFix then errPeek Variant.fixed 20 else errCurr Variant.fixed) : PM σ Unit) =
+            errPeek Variant.fixed 20 := rfl
+        rw [hv]
+        have hc := errPeek_sat (α := Unit) (code := 20) (Q := fun _ _ => False) (F := False) hp.1 (by decide)
+        generalize (errPeek Variant.fixed 20 : PM σ Unit) s1 = r2 at hc ⊢
         cases r2 with
         | err e => exact hc
         | panic => exact hc
